@@ -32,21 +32,24 @@ type boundedStandin struct {
 
 var boundedCountRE = regexp.MustCompile(`BOUNDED instances=(\d+)`)
 
-func runBoundedStandins(o *options) (results []interface{}, failed []string) {
+func runBoundedStandins(o *options) (results []interface{}, failed []string, violated []string) {
 	b, err := os.ReadFile(filepath.Join(o.verif, "bounded", "standins.json"))
 	if err != nil {
-		return nil, nil
+		return nil, nil, nil
 	}
 	var all []boundedStandin
 	if err := json.Unmarshal(b, &all); err != nil {
-		return nil, []string{"bounded/standins.json: " + err.Error()}
+		return nil, []string{"bounded/standins.json: " + err.Error()}, nil
 	}
 	for _, s := range all {
 		if s.Property != o.prop {
 			continue
 		}
 		rec := map[string]interface{}{"name": s.Name, "stands_in_for": s.For, "bound": s.Bound, "label": "bounded", "counted_as_proved": false}
-		if o.tier != "thorough" {
+		// a stand-in that runs functions of the repository (overlay) is run by both tiers: when the
+		// code changes so that an assumed fact about it becomes false, the failing instance is a
+		// counterexample on the real code - a violation, not a broken check
+		if o.tier != "thorough" && s.Kind != "overlay" {
 			rec["ran"] = false
 			rec["note"] = "run by the thorough tier"
 			results = append(results, rec)
@@ -90,11 +93,21 @@ func runBoundedStandins(o *options) (results []interface{}, failed []string) {
 		if err != nil || n == 0 {
 			rec["result"] = "FAILED"
 			rec["output"] = trunc(string(out), 2000)
-			failed = append(failed, fmt.Sprintf("bounded stand-in %s refutes an assumption of this check (or did not run): %s", s.Name, trunc(strings.TrimSpace(string(out)), 400)))
+			if s.Kind == "overlay" && strings.Contains(string(out), "--- FAIL") {
+				dir := filepath.Join(o.verif, "replay", o.prop)
+				os.MkdirAll(dir, 0o755)
+				path := filepath.Join(dir, "bounded_"+sanitize(s.Name)+".json")
+				rb, _ := json.MarshalIndent(map[string]interface{}{"property": o.prop, "obligation": "bounded:" + s.Name, "kind": "bounded-standin", "stands_in_for": s.For,
+					"bound": s.Bound, "replay_cmd": rec["cmd"], "verifier_output": trunc(string(out), 4000), "reproduced_on_real_code": true}, "", " ")
+				os.WriteFile(path, rb, 0o644)
+				violated = append(violated, fmt.Sprintf("VIOLATION property=%s replay=%s obligation=bounded:%s result=failing-instance-on-the-real-code", o.prop, path, s.Name))
+			} else {
+				failed = append(failed, fmt.Sprintf("bounded stand-in %s refutes an assumption of this check (or did not run): %s", s.Name, trunc(strings.TrimSpace(string(out)), 400)))
+			}
 		} else {
 			rec["result"] = "held on every instance within the bound"
 		}
 		results = append(results, rec)
 	}
-	return results, failed
+	return results, failed, violated
 }
